@@ -36,6 +36,9 @@ fn seed() -> u64 {
 }
 
 fn build_name() -> &'static str {
+    if !cfg!(debug_assertions) {
+        return "noassert";
+    }
     if !ASYNC {
         "sync"
     } else if INTR {
@@ -256,7 +259,8 @@ fn cases_for(prop: &str, thorough: bool) -> u64 {
 fn run_prop(prop: &'static str, thorough: bool) -> Part {
     let known = Findings::load(&verif_dir());
     let workers: u64 = std::env::var("FG_WORKERS").ok().and_then(|s| s.parse().ok()).unwrap_or(if thorough { 16 } else { 8 });
-    let cases = std::env::var("FG_CASES").ok().and_then(|s| s.parse().ok()).unwrap_or_else(|| cases_for(prop, thorough));
+    let div: u64 = std::env::var("FG_CASES_DIV").ok().and_then(|s| s.parse().ok()).unwrap_or(1).max(1);
+    let cases = std::env::var("FG_CASES").ok().and_then(|s| s.parse().ok()).unwrap_or_else(|| cases_for(prop, thorough) / div);
     #[cfg(not(feature = "async_apis"))]
     if SINGLE.contains(&prop) || prop == "C15" || prop == "C20" {
         eprintln!("{prop} needs fn_graph's async feature: not decided by the sync build");
